@@ -259,7 +259,8 @@ def next_record(sim):
                 src = st.get("src_model")
                 if src is not None:
                     labs = list(src.nodes) + [x for e in src.edges for x in src.all_members(e)]
-                    if len({str(x) for x in set(labs)}) == len(set(labs)) and g.r.random() < 0.8:
+                    # (every *spelling* counts: 4 and 4.0 are one node but two strings)
+                    if len({str(x) for x in labs}) == len(set(labs)) and g.r.random() < 0.8:
                         params["nodetype"] = "str"
                     if len({str(x) for x in src.edges}) == len(src.edges) and g.r.random() < 0.8:
                         params["edgetype"] = "str"
